@@ -75,6 +75,9 @@ FAULTS = [
     ("mode", "function-of-complex", ["Vac | cosh(0j)"]),
     ("mode", "complex-zero-imag", ["Vac | %(i)s+0j"]),
     ("loopvalue", "function-of-complex-in-float", ["for float j in [exp(1j*pi)]", "    Dgate(j) | %(m)s"]),
+    # a complex array used as a whole is a complex value, too
+    ("type", "float<-whole-complex-array", ["complex array CZ =", "    %(c)s, %(i)s", "float cf = CZ"]),
+    ("type", "int<-whole-complex-array", ["complex array CZ =", "    %(c)s", "int ci = CZ"]),
     ("loopvalue", "float-in-int", ["for int j in [%(i)s, %(f)s]", "    Vac | j"]),
     ("loopvalue", "str-in-int", ['for int j in [%(i)s, "a"]', "    Vac | j"]),
     ("loopvalue", "str-in-float", ['for float j in ["a"]', "    Dgate(j) | %(m)s"]),
